@@ -273,7 +273,7 @@ def job_call(p: Dict[str, Any]) -> Dict[str, Any]:
 
 def job_harvest(p) -> Dict[str, Any]:
     from mc import callforms
-    calls = callforms.harvest(p.get("max_programs"))
+    calls = callforms.harvest(p.get("max_programs"), p.get("stripe", 0), p.get("n_stripes", 1))
     return {"calls": calls}
 
 
@@ -366,7 +366,18 @@ def main(tier: str) -> int:
                        "JAX. state = (substitute, parameter, form) / call; transition = one binding attempt / export; non-trivial = "
                        "call form the original accepts.")
     run.assumptions += ["only the installed library versions can be explored", "layer 2 covers the curated call table, not every parameter of every function"]
-    with Pool(8, init=("checks.c15", "_warm"), job_timeout=400) as pool:
+    with Pool(init=("mc.runners", "warm_oracle"), job_timeout=400) as pool:
+        # layer 3, step 1: harvest call forms by running the testcases eagerly, before this pool converts anything
+        merged: Dict[str, Dict[str, Any]] = {}
+        n_str = 16
+        for _i, p, hv in pool.imap("checks.c19", "job_harvest", [{"stripe": k, "n_stripes": n_str} for k in range(n_str)], timeout=600):
+            if is_worker_failure(hv):
+                run.harness_error(f"harvest stripe {p['stripe']}: {hv.get('_worker')} {hv.get('msg', '')[:200]}")
+                run.cap("a harvest stripe failed")
+                continue
+            for c in hv["calls"]:
+                merged.setdefault(c["key"], c)
+        hcalls = [merged[k] for k in sorted(merged)]
         r = pool.map("checks.c19", "job_static", [None])[0]
         if is_worker_failure(r):
             run.harness_error(f"static layer: {r.get('_worker')} {r.get('msg', '')[:300]}")
@@ -414,11 +425,6 @@ def main(tier: str) -> int:
         run.cov["call_outcomes"] = outcomes
         run.cov["calls"] = len(calls)
         # layer 3: call forms harvested from the registered testcases themselves
-        hv = pool.map("checks.c19", "job_harvest", [{"max_programs": None}], timeout=900)[0]
-        if is_worker_failure(hv):
-            run.harness_error(f"harvest: {hv.get('_worker')} {hv.get('msg', '')[:200]}")
-            hv = {"calls": []}
-        hcalls = hv["calls"]
         run.cov["harvested_calls"] = len(hcalls)
         run.cov["harvested_functions"] = len({c["module"] + "." + c["attr"] for c in hcalls})
         fstats = {"forms_exported": 0, "calls_with_several_forms": 0}
